@@ -27,6 +27,7 @@ def run(ck):
     ck.rule("R3", "SSA simplifier pipeline order", floor=2)
     ck.rule("R4", "the aliasing test of expression propagation measures each memory access with its own base, offset and size", floor=4)
     _merge_rules(ck)
+    _phi_rules(ck)
 
     m = ck.repo.mod(DF)
     fn = m.func("DeadRemoval.is_unkillable_destination")
@@ -311,3 +312,57 @@ def _aliases(fn, par):
         if isinstance(n, ast.Assign) and isinstance(n.targets[0], ast.Name) and norm(n.value) == "ircfg.blocks[%s]" % par:
             out.add(n.targets[0].id)
     return out
+
+
+def _phi_rules(ck):
+    """R6: when edges are deleted from an SSA graph, a Phi source disappears only if EVERY predecessor it flows through is deleted.
+    update_phi_with_deleted_edges, per source: the paths of the loop body on which the source is not kept must carry a condition that
+    says `parents(src) - deleted == {}` (difference empty / subset); a source reaching the join through two predecessors, one of them still
+    alive, stays."""
+    from sa import symval
+    ck.rule("R6", "a Phi source is dropped only when all the predecessor edges it flows through are deleted", floor=2)
+    m = ck.repo.mod(DF)
+    fn = m.func("update_phi_with_deleted_edges")
+    loops = [n for n in walk_body(fn) if isinstance(n, ast.For) and norm(n.iter).endswith(".args") and isinstance(n.target, ast.Name)]
+    ck.need(loops, "update_phi_with_deleted_edges: loop over the Phi sources not found")
+    lp = loops[0]
+    src = lp.target.id
+    # the kept set and how it starts
+    par = getattr(lp, "_parent", None)
+    sibs = []
+    for fld in ("body", "orelse"):
+        b = getattr(par, fld, None)
+        if isinstance(b, list) and lp in b:
+            sibs = b[:b.index(lp)]
+    keep = None
+    full = None
+    for st in sibs:
+        if isinstance(st, ast.Assign) and isinstance(st.targets[0], ast.Name) and isinstance(st.value, ast.Call) and norm(st.value.func) in ("set", "list"):
+            keep = st.targets[0].id
+            full = bool(st.value.args) and norm(st.value.args[0]) == norm(lp.iter)
+    ck.need(keep is not None, "update_phi_with_deleted_edges: the set of kept sources was not found")
+    deleted = [a.arg for a in fn.args.args][1] if len(fn.args.args) > 1 else "edges_to_del"
+    n_drop = 0
+    for pth in symval.paths(lp.body, limit=64):
+        added = any(isinstance(e, ast.Call) and isinstance(e.func, ast.Attribute) and e.func.attr in ("add", "append") and norm(e.func.value) == keep
+                    and e.args and norm(e.args[0]) == src for e in pth.effects)
+        removed = any(isinstance(e, ast.Call) and isinstance(e.func, ast.Attribute) and e.func.attr in ("discard", "remove") and norm(e.func.value) == keep
+                      and e.args and norm(e.args[0]) == src for e in pth.effects)
+        dropped = removed if full else not added
+        if not dropped:
+            continue
+        n_drop += 1
+        ok = False
+        for t, b in pth.conds:
+            while isinstance(t, ast.UnaryOp) and isinstance(t.op, ast.Not):
+                t, b = t.operand, not b
+            tx = norm(t).replace(" ", "")
+            subset = (".issubset(" in tx or "<=" in tx) and b is True
+            all_in = tx.startswith("all(") and " in " in norm(t) and b is True
+            no_rest = (".difference(" in tx or ("-" in tx and "[" in tx)) and b is False
+            if (subset or all_in or no_rest) and ("[%s]" % src in tx or src in tx):
+                ok = True
+        ck.ob("R6", "update_phi_with_deleted_edges:drop-needs-all-parents-deleted", ok, m.where(lp),
+              "a Phi source is dropped under [%s]: this does not say that every predecessor it flows through was deleted (a source shared by a "
+              "deleted and a live predecessor must stay)" % ", ".join("%s is %s" % (norm(t), b) for t, b in pth.conds))
+    ck.ob("R6", "update_phi_with_deleted_edges:drop-path-found", n_drop >= 1, m.where(lp), "no path dropping a source found (extractor blind)")
